@@ -13,9 +13,12 @@ import (
 	"net/http/httptest"
 	"net/url"
 	"runtime"
+	"time"
 
 	"github.com/ipfs/go-cid"
 	"github.com/ipni/go-libipni/announce/httpsender"
+	"github.com/ipni/go-libipni/announce/p2psender"
+	pubsub "github.com/libp2p/go-libp2p-pubsub"
 	"github.com/ipni/go-libipni/announce/message"
 	"github.com/multiformats/go-multiaddr"
 	"github.com/multiformats/go-multihash"
@@ -23,6 +26,7 @@ import (
 	cbg "github.com/whyrusleeping/cbor-gen"
 
 	"verifharness/internal/ids"
+	"verifharness/internal/psenv"
 	"verifharness/internal/rep"
 )
 
@@ -273,6 +277,28 @@ func Run(args []string) *rep.Report {
 		r.SetExtra("read_error", err.Error())
 		return r
 	}
+	// gossip sender: published on host 1's topic, read from a subscription on the connected host 2
+	pe, perr := psenv.Get()
+	var psnd *p2psender.Sender
+	var psub interface {
+		Next(context.Context) (*pubsub.Message, error)
+	}
+	if perr == nil {
+		if psnd, perr = p2psender.New(nil, "", p2psender.WithTopic(pe.T1)); perr == nil {
+			psub, perr = pe.T2.Subscribe()
+			deadline := time.Now().Add(5 * time.Second)
+			for perr == nil && len(pe.T1.ListPeers()) == 0 {
+				if time.Now().After(deadline) {
+					perr = fmt.Errorf("host 1 did not learn of host 2's subscription")
+				}
+				time.Sleep(2 * time.Millisecond)
+			}
+		}
+	}
+	if perr != nil {
+		r.SetExtra("p2p_sender_unavailable", perr.Error())
+	}
+	p2pSent := 0
 	idx, execs := 0, 0
 	bad := func(key string, tc *tcase, detail string) {
 		r.Diverge(rep.Divergence{Key: key, Case: tc, Detail: detail})
@@ -345,6 +371,29 @@ func Run(args []string) *rep.Report {
 		var jm message.Message
 		if err != nil || json.Unmarshal(jb, &jm) != nil || !same(project(&jm), tc.M) || jm.Cid != msg.Cid {
 			bad("json-round-trip", tc, fmt.Sprintf("%v", err))
+		}
+		// gossip sender: the message a subscriber on another host receives decodes to the message that was sent
+		if perr == nil && tc.M.Extra != "atcap" && len(input) < 512<<10 {
+			sent := build(tc.M, idx)
+			if err := psnd.Send(context.Background(), sent); err != nil {
+				bad("p2p-sender-error", tc, err.Error())
+			} else {
+				ctx, cancel := context.WithTimeout(context.Background(), 3*time.Second)
+				pm, err := psub.Next(ctx)
+				cancel()
+				execs++
+				p2pSent++
+				var got message.Message
+				switch {
+				case err != nil:
+					r.Inconclusive++
+					r.SetExtra("p2p_sender_lost", err.Error())
+				case got.UnmarshalCBOR(bytes.NewReader(pm.Data)) != nil:
+					bad("p2p-sender-wire", tc, "the subscriber cannot decode what the gossip sender published")
+				case !same(project(&got), tc.M) || got.Cid != sent.Cid || got.OrigPeer != sent.OrigPeer || pm.GetFrom() != pe.H1.ID():
+					bad("p2p-sender-wire", tc, fmt.Sprintf("the subscriber decodes %+v from %s, sent %+v by %s", project(&got), pm.GetFrom(), tc.M, pe.H1.ID()))
+				}
+			}
 		}
 		// HTTP sender, CBOR and JSON: what is put on the wire is what a receiver decodes
 		if tc.M.Extra != "atcap" {
@@ -420,5 +469,6 @@ func Run(args []string) *rep.Report {
 		r.SetExtra("read_error", err.Error())
 	}
 	r.SetExtra("codec_executions", execs)
+	r.SetExtra("p2p_sender_messages", p2pSent)
 	return r
 }
